@@ -6,3 +6,7 @@ template size_t FIX8::itoa<int>(int, char *, int);
 template int FIX8::fast_atoi<int>(const char *, const char);
 template unsigned FIX8::fast_atoi<unsigned>(const char *, const char);
 template unsigned short FIX8::fast_atoi<unsigned short>(const char *, const char);
+template int FIX8::RealmBase::get_rlm_idx<int>(const int&) const;
+template int FIX8::RealmBase::get_rlm_idx<char>(const char&) const;
+template bool FIX8::RealmBase::is_valid<int>(const int&) const;
+template bool FIX8::RealmBase::is_valid<char>(const char&) const;
